@@ -41,7 +41,7 @@ PROP = dict(
         "SSWU criterion 3 of RFC 6.6.2 (g(x)-Z irreducible) only concerns the output distribution; a configured Z failing it is reported in the notes, not asserted",
     ],
     jobs=[
-        dict(name="params", pkg="c13", run="^(TestC13_(Params|Anchor|Vectors|FieldL|RegressF8|RegressF72|ExceptionalProbe)|FuzzC13_.*)$", rapid=False, timeout=(900, 1800), weight=2),
+        dict(name="params", pkg="c13", run="^(TestC13_(Params|Anchor|Vectors|FieldL|WrapperInventory|RegressF8|RegressF72|ExceptionalProbe)|FuzzC13_.*)$", rapid=False, timeout=(900, 1800), weight=2),
         dict(name="xmdsweep", pkg="c13", run="^TestC13_XmdSweep$", rapid=False),
         dict(name="xmd", pkg="c13", run="^TestC13_Xmd$", checks=(6000, 100000), seeds=(2, 4)),
         dict(name="fieldhash", pkg="c13", run="^TestC13_FieldHash$", shards=FIELDS, checks=(1500, 25000)),
@@ -54,6 +54,7 @@ PROP = dict(
     ] + _suite_jobs("map", "^TestC13_MapToCurve$", 500, 5000) + _suite_jobs("hash", "^TestC13_HashToGroup$", 150, 1500),
     mandatory_all=["u:0", "u:exceptional_root", "u:-1", "len:0", "len:1..31", "len:not_multiple_of_32", "len:>8160", "dst_len:0", "dst_len:255",
                    "small_field_count01", "branch:x3", "branch:exc:x1",
+                   "sum_nil_kept_across_calls", "returned_scribbled", "prefix_with_spare_capacity", "second_instance", "helper_slice_kept",
                    "u:near_exceptional", "u:coefficient_single_limb", "near_exceptional:mont", "near_exceptional:canon", "near_exceptional:top_limb"]
                   + ["near_exceptional:limb%d" % j for j in range(12)]
                   + ["near_exceptional:suite:" + s for s in SUITES],
